@@ -51,6 +51,21 @@ CLAIMED = {
         "finding); a cursor walk interleaved with deletions equals a walk over the snapshot (validated on the real engine).",
         "DESIGN.md §6 C10",
     ),
+    "C01": (
+        "Lean 4 theorems (soundness of the LMDB residual filter and of the SQL WHERE predicate w.r.t. a NIP-01 specification; table invariant by induction over add_event; quoting round trip) + differential correspondence on both backends + SQL text skeleton check",
+        "Proof: NostrRelay/Props/C01.lean proves (KV) every id leaving executePlan is a stored record filed under that id "
+        "that satisfies matchesSpec, for every coherent store and every plan, and that every stored record was handed to the "
+        "writer by an add task; (SQL) the events/tags table invariant is preserved by every committed add_event (all "
+        "pre_save outcomes) and by GC, and under it every row of matchingRows is stored and satisfies matchesSpec for one "
+        "filter of the REQ; (text) the quote-doubling literal is read back verbatim by a SQL literal reader for every byte "
+        "string. Tie: real planner/execute_one_plan on liblmdb and real build_query/run_query on SQLite vs the models "
+        "(plan, answer, table dumps); search with an adversarial pool (quotes, backslashes, bind-shaped values, comments, "
+        "NUL) incl. the token skeleton and the literal set of the generated SQLite and PostgreSQL statements.",
+        "Trusted: Lean kernel + standard axioms; SQLite/aiosqlite/SQLAlchemy; lmdb stand-in; PostgreSQL branch only at "
+        "text level; validation (pydantic NostrQuery) is exercised, not modelled; search filters not modelled; one open "
+        "finding (SQLAlchemy text() colon processing).",
+        "DESIGN.md §6 C01",
+    ),
 }
 
 NOT_YET = "not reached yet in this round (model/tie not built); see DESIGN.md §10 staging — no weaker technique is substituted"
